@@ -4,6 +4,7 @@ import (
 	"crypto/sha256"
 	"encoding/hex"
 	"fmt"
+	"math/big"
 	"sort"
 	"sync"
 
@@ -223,7 +224,7 @@ func (m *monC19) OnTransition(t *Transition) []Violation {
 				if t.Op.Kind == "add_allowed" || t.Op.Kind == "update_allowed" || t.Op.Kind == "msg_add_allowed" {
 					who = t.Op.Bidder
 				}
-				actor = t.Pre.Bal[addrOf(who)].String()
+				actor = fundsClass(t.Pre, addrOf(who), t.Op)
 			}
 			o := t.Op
 			o.Budget, o.Tag = "", ""
@@ -254,6 +255,49 @@ func (m *monC19) OnTransition(t *Transition) []Violation {
 		}
 	}
 	return vs
+}
+
+// fundsClass is how the actor's balances enter the non-interference key: only as far as they can
+// matter. A denomination in which the actor holds at least an upper bound of everything the
+// operation can charge (reservation + every fee) is recorded as "enough", any other exactly; an
+// operation that charges nothing records nothing. Two contexts in which the actor spent different
+// amounts in OTHER auctions therefore still meet under one key, which is what lets the table see a
+// bidder's bids elsewhere leak into this auction.
+func fundsClass(s *ref.State, who string, op Op) string {
+	ub := new(big.Int)
+	switch op.Kind {
+	case "place", "modify":
+		amt := big0(op.Amt)
+		pr := ref.R(op.Price)
+		if pr.Sign() > 0 && amt.Sign() > 0 {
+			v := new(big.Int).Mul(pr.Num(), amt)
+			v.Quo(v, pr.Denom())
+			ub.Add(v, big.NewInt(1))
+		}
+		ub.Add(ub, new(big.Int).Abs(amt))
+	case "create_fixed", "create_batch":
+		_, sa := splitCoin(op.Sell)
+		ub.Abs(sa)
+	case "cancel", "add_allowed", "update_allowed", "msg_add_allowed":
+		return "charges-nothing"
+	default:
+		return s.Bal[who].String()
+	}
+	for _, fee := range []ref.Coins{s.CreationFee, s.BidFee} {
+		for _, v := range fee {
+			ub.Add(ub, v)
+		}
+	}
+	out := ""
+	for _, d := range world.TrackedDenoms {
+		b := s.Bal[who].Get(d)
+		if b.Cmp(ub) >= 0 {
+			out += d + ":enough,"
+		} else {
+			out += d + ":" + b.String() + ","
+		}
+	}
+	return out
 }
 
 func digestParts(s *ref.State, id uint64) string {
